@@ -24,13 +24,14 @@ import (
 )
 
 // only be used when NewRequiredFieldNotSetException
-func lookupFieldName(rt reflect.Type, offset uintptr) string {
+// ft disambiguates zero-size fields, which share their offset with the next field.
+func lookupFieldName(rt reflect.Type, offset uintptr, ft reflect.Type) string {
 	for rt.Kind() == reflect.Ptr {
 		rt = rt.Elem()
 	}
 	for i := 0; i < rt.NumField(); i++ {
 		f := rt.Field(i)
-		if f.Offset == offset {
+		if f.Offset == offset && f.Type == ft {
 			return f.Name
 		}
 	}
